@@ -54,7 +54,7 @@ adapt_numpylike_reduce.__doc__ = _make_doc_adapt_numpylike_reduce()
 
 
 def adapt_numpylike_elementwise(op):
-    iskwarg = lambda name, iskwarg=_make_iskwarg(op): name != "axis" and iskwarg(name)
+    iskwarg = _make_iskwarg(op)
     tf = tracer.signature.tensorflow()
 
     classical = adapter.classical_from_tensorflow.ops(tf)
